@@ -3,6 +3,7 @@ CONSTANTS
   N = 4
   MaxView = 1
   Height = 1
+  InitSilentSets <- SilentAny
   MaxSilentChanges = 1
 INVARIANTS Agreement AcceptJustified CommitLock
 CHECK_DEADLOCK FALSE
